@@ -58,6 +58,10 @@ def scripts(rng, tier, n=None):
             elif gaps and not wild and (rng.random() < 0.3 or (forced_late and i == 3)):
                 late = gaps.pop(rng.randrange(len(gaps)))
                 pkt = rand_rtp(rng, ssrcs[0], late & 0xffff, ids=list(p.enc_xtn) or None, big=big, ext_p=ext_p)
+                if forced_late and i == 3 and p.enc_xtn:
+                    # ... and it carries a listed element for certain
+                    pkt = rtp_packet(ssrcs[0], late & 0xffff, payload=rand_key(rng, 20), cc=rng.choice([0, 1]),
+                                     ext=one_byte_ext([(p.enc_xtn[0], rand_key(rng, 3)), (p.enc_xtn[-1], rand_key(rng, 1))]))
             else:
                 pkt = rand_rtp(rng, rng.choice(ssrcs), seq & 0xffff, ids=list(p.enc_xtn) or None, big=big, ext_p=ext_p)
                 step = rng.choice([1, 1, 2, 5]) if not (forced_late and i < 3) else [2, 1, 1][i]
@@ -113,4 +117,4 @@ def families(tier, seed):
     return [Family("rtp-roundtrip", scripts(rng, tier), monitor=monitor),
             # AES-GCM (RFC 7714) policies: libsrtp built from the working tree against OpenSSL, the model compiled with that
             # build's back-end flags (Aead.v: srtp_protect_aead / srtp_unprotect_aead, Crypto/GCM.v)
-            Family("gcm-roundtrip", with_aead(scripts, rng2, tier, n=(12 if tier == "quick" else 200)), monitor=monitor, config="openssl")]
+            Family("gcm-roundtrip", with_aead(scripts, rng2, tier, n=(16 if tier == "quick" else 200)), monitor=monitor, config="openssl")]
